@@ -142,8 +142,11 @@ def unescape(s):
 # The adversarial alphabet of the quantifier: 14 SYMBOLS (a lexical form of "length L" is a
 # concatenation of L symbols, written exactly like this between the quotes).
 SYMBOLS = ['\\"', '\\\\', '@', '^^', '#', ' .', '<', '>', 'xsd:', 'geo:', '7', '_', 'é', '\\u00e9']
-EXTRA_SYMBOLS = ['a', ' ', 'rdf:', 'dt:', '%', ';', ',', '\\n', "'", 'http://', 'Z']
+EXTRA_SYMBOLS = ['a', ' ', 'rdf:', 'dt:', '%', ';', ',', '\\n', "'", 'http://', 'Z', '\u2028', '\x85', '\x0c']
 PREFIX_LIKE = ("xsd:", "rdf:", "dt:", "geo:")
+# characters at which str.splitlines() breaks a string although N-Triples allows them unescaped inside a literal
+# (the only line ends of N-Triples are LF / CR); rdflib, the referee, accepts every one of them raw
+LINE_SEPARATORS = ["\u2028", "\u2029", "\x85", "\x0c", "\x0b", "\x1c", "\x1d", "\x1e"]
 
 DT_FOO = "http://ex.org/dt/foo"
 XSD_ANYURI = XSD + "anyURI"     # an XSD datatype whose lexical forms rdflib (the referee) leaves alone; xsd:integer "7_7" -> "77", xsd:token collapses blanks
@@ -288,6 +291,8 @@ def nt_features(case):
             f.add("escaped-backslash-then-escaped-quote")
         if '\\"' in lex:
             f.add("escaped-quote")
+        if any(ch in lex for ch in LINE_SEPARATORS):
+            f.add("line-separator-in-lex")
         if any(x in lex for x in PREFIX_LIKE):
             f.add("prefix-like-in-lex")
         if kind == "dt" and any(x in o[3] for x in PREFIX_LIKE):
@@ -302,6 +307,8 @@ def nt_features(case):
 # root-cause categories of C06, in the order in which features claim a deviation of the tokenizer
 def _nt_token_cause(f):
     """Root-cause category of a deviation in which the line was cut into the wrong tokens (or None)."""
+    if "line-separator-in-lex" in f:
+        return "unicode-line-separator-in-literal"
     if "dot-glued-to-object" in f and "comment" in f:
         return "dot-glued-to-object-before-comment"
     if "dot-glued-to-object" in f:
@@ -477,6 +484,62 @@ def nt_node_cases():
             for sep3 in PRE_DOT:
                 for com in ODD_COMMENTS:
                     yield (s, P_DEFAULT, o, " ", " ", sep3, com)
+
+
+def nt_line_separator_cases():
+    """Each character of LINE_SEPARATORS at the start / in the middle / at the end of a plain, a language-tagged and
+    a typed literal under every layout, and next to every symbol of the alphabet (default layout)."""
+    for ch in LINE_SEPARATORS:
+        for lex in (ch + "ab", "a" + ch + "b", "ab" + ch, ch, "a" + ch + ch + "b"):
+            for kind, x in SUFFIXES:
+                for lay in nt_layouts(True):
+                    yield (S_DEFAULT, P_DEFAULT, ("L", lex, kind, x)) + lay
+        for sym in SYMBOLS:
+            for lex in (sym + ch, ch + sym, sym + ch + sym):
+                for kind, x in SUFFIXES:
+                    yield (S_DEFAULT, P_DEFAULT, ("L", lex, kind, x)) + DEFAULT_LAYOUT
+
+
+def nt_line_separator_documents():
+    """Documents of 2-3 statements, one of them with a line-separator character in its literal (first / middle / last
+    statement; plain, tagged, typed).  -> items for nt_doc_oracle_check."""
+    plain = (S_DEFAULT, P_DEFAULT, ("I", IRIS[1])) + DEFAULT_LAYOUT
+    other = (("B", "b1"), P_DEFAULT, ("L", "z", "plain", None)) + DEFAULT_LAYOUT
+    for ch in LINE_SEPARATORS:
+        for kind, x in SUFFIXES:
+            for lex in (ch + "ab", "a" + ch + "b", "ab" + ch):
+                hot = (S_DEFAULT, P_DEFAULT, ("L", lex, kind, x)) + DEFAULT_LAYOUT
+                for items in ([hot, plain], [plain, hot], [plain, hot, other]):
+                    yield [("line", c) for c in items]
+
+
+def nt_doc_oracle_check(items):
+    """A document of lines (default layout) against the oracle of its abstract triples: rows in document order,
+    error_triples == 0.  -> ([(category, symptom class, description)], document)."""
+    cases = [x for k, x in items if k == "line"]
+    doc = "\n".join(nt_line(c) for c in cases) + "\n"
+    exp = [nt_expected(c) for c in cases]
+    r = read_nt(doc)
+    feats = set()
+    for c in cases:
+        feats |= nt_features(c)
+    cat = _nt_token_cause(feats) or "other"
+    if r[0] == "hang":
+        return [(cat, "hang", "hang")], doc
+    if r[0] == "raise":
+        return [(cat, "raise:" + r[1], "raise %s in %s: %s" % (r[1], r[2], r[3][:80]))], doc
+    rows, errors = r[1]
+    out = []
+    if len(rows) != len(exp):
+        out.append((cat, "statement-dropped" if len(rows) < len(exp) else "extra-triple",
+                    "%d triple(s) yielded from %d statements, error_triples=%d" % (len(rows), len(exp), errors)))
+    elif rows != exp:
+        i = [a != b for a, b in zip(rows, exp)].index(True)
+        out.append((cat, "wrong-node" if rows[i][:4] != exp[i][:4] or exp[i][3] != "Literal" else
+                    "wrong-content" if rows[i][4] != exp[i][4] else "wrong-datatype", "statement %d: %r instead of %r" % (i + 1, rows[i], exp[i])))
+    elif errors:
+        out.append((cat, "error-count", "error_triples=%d" % errors))
+    return out, doc
 
 
 def nt_random_case(rng, lo=4, hi=8):
